@@ -40,6 +40,7 @@ type Case struct {
 	rt      *rapid.T
 	tt      *testing.T
 	Choices []int
+	Labels  []string // label of every recorded choice (replay files carry them to detect generator drift)
 	trace   []string
 	classes map[string]bool
 	nontriv bool
@@ -61,6 +62,7 @@ func (c *Case) Int(label string, lo, hi int) int {
 
 	v := c.ch.Int(label, lo, hi)
 	c.Choices = append(c.Choices, v)
+	c.Labels = append(c.Labels, label)
 
 	return v
 }
@@ -469,6 +471,7 @@ type replayFile struct {
 	Sig      string   `json:"sig"`
 	Message  string   `json:"message"`
 	Choices  []int    `json:"choices"`
+	Labels   []string `json:"labels,omitempty"`
 	Trace    []string `json:"trace"`
 }
 
@@ -502,7 +505,7 @@ func writeReplay(c *Case) string {
 
 	rf := replayFile{
 		Property: c.Prop, Check: c.Check, Sig: c.fail.Sig, Message: c.fail.Msg,
-		Choices: c.Choices, Trace: c.trace,
+		Choices: c.Choices, Labels: c.Labels, Trace: c.trace,
 	}
 
 	b, err := json.MarshalIndent(rf, "", " ")
@@ -585,6 +588,15 @@ func replayCheck(t *testing.T, prop, check, path string, fn func(c *Case)) {
 	if c.fail != nil {
 		fmt.Printf("REPLAY-VIOLATION property=%s check=%s sig=%s: %s\n", prop, check, c.fail.Sig, c.fail.Msg)
 		t.Fatalf("violation reproduced: [%s] %s", c.fail.Sig, c.fail.Msg)
+	}
+
+	// A replay recorded before the generator changed draws different things from the same numbers.
+	for i, l := range rf.Labels {
+		if i < len(c.Labels) && c.Labels[i] != l {
+			fmt.Printf("REPLAY-STALE property=%s check=%s: choice %d was %q when recorded, is %q now\n", prop, check, i, l, c.Labels[i])
+
+			return
+		}
 	}
 
 	fmt.Printf("REPLAY-OK property=%s check=%s\n", prop, check)
